@@ -303,6 +303,9 @@ def time_invariant(fb, fn, nid, depth=0):
         if k == 'var':
             if n.get('vk') in ('enumconst', 'function') or 'cv' in n:
                 continue
+            if n.get('vk') == 'param' and _decl_type(fn, n['d']).lstrip().startswith('const ') and _decl_type(fn, n['d']).rstrip().endswith('&') \
+                    and not _decl_type(fn, n['d']).rstrip().endswith('&&'):
+                continue    # reference to const: names an object that cannot change through it
             if n.get('vk') in ('local', 'param') and n['d'] not in written and not _is_ref(fn, n):
                 if n.get('vk') == 'param':
                     continue
@@ -315,6 +318,19 @@ def time_invariant(fb, fn, nid, depth=0):
             if hs and (hs[0].static or hs[0].cls is None) and is_pure_fn(fb, hs[0]):
                 continue
             return False
+        if k in ('member', 'call'):
+            # state of an object received by reference-to-const cannot change through that reference during the call
+            base = n.get('recv') if k == 'call' else n.get('base')
+            rv = fn.root_var(base) if base is not None else None
+            if rv is not None and rv[0] == 'var':
+                pt = next((p_['tC'] for p_ in fn.params if p_['d'] == rv[1]), None)
+                if pt is not None and pt.lstrip().startswith('const ') and pt.rstrip().endswith('&') and not pt.rstrip().endswith('&&'):
+                    if k == 'member' and (n.get('field') or n.get('method')):
+                        continue
+                    nm = n.get('q', '').rsplit('::', 1)[-1]
+                    hs = fb.by_usr.get(n.get('u'), [])
+                    if k == 'call' and ((hs and hs[0].const) or (n.get('q', '').startswith('std::') and nm in _CONST_OBSERVERS)):
+                        continue
         if fn.const and fn.cls and not fn.is_lambda:
             # inside a const member function the object's own state cannot change: members and const observers are invariant
             if k == 'this' or (k == 'member' and (n.get('field') or n.get('method'))):
@@ -1102,7 +1118,7 @@ def element_loops(fb, fn):
                     if len(ws) != len(incs) or not incs:
                         continue
                     init = local_init(fn, v['d'])
-                    zn = scn(fn, z)
+                    zn = rn(fb, fn, z)
                     if init is None or zn is None or zn.get('k') != 'call' or zn.get('recv') is None:
                         continue
                     nm = zn.get('q', '').rsplit('::', 1)[-1]
@@ -1392,3 +1408,43 @@ def memberwise_rule(fb, R, rule, recs, exceptions=None, by_value_assign=True):
                     R.check(ok, rule, '%s(by-value)#swaps-with-argument' % fn.q, fn.site,
                             'copy-and-swap assignment %s must call the class swap with (*this, argument) on every path' % fn.q)
     return done
+
+
+def nonnull_test(fn, cond):
+    """condition tests a pointer-like value against null -> (expr id of the pointer, True when cond == true means non-null), else None"""
+    cond, pol = unnegate(fn, cond)
+    x = scn(fn, cond)
+    if x is None:
+        return None
+    if x.get('k') == 'call' and x.get('q', '').rsplit('::', 1)[-1] in ('(conv)', 'operator bool') and x.get('recv') is not None:
+        return x['recv'], pol
+    p = cmp_parts(fn, cond)
+    if p is not None and p[0] in ('==', '!='):
+        for a, z in ((p[1], p[2]), (p[2], p[1])):
+            zn = scn(fn, z)
+            if zn is not None and (zn.get('null') or fn.const_value(z) == 0):
+                return a, (p[0] == '!=') == pol
+        return None
+    if (x.get('t') or '').rstrip().endswith('*'):
+        return x['id'], pol
+    return None
+
+
+def pointer_origin(fn, nid):
+    """follow a pointer value back through locals and smart-pointer get(): -> expression id it was taken from"""
+    hops = 0
+    while nid is not None and hops < 6:
+        hops += 1
+        n = scn(fn, nid)
+        if n is None:
+            return nid
+        if n.get('k') == 'var' and n.get('vk') == 'local' and n['d'] not in assigned_vars(fn) and not _decl_type(fn, n['d']).rstrip().endswith('&'):
+            init = local_init(fn, n['d'])
+            if init is None:
+                return n['id']
+            nid = init
+        elif n.get('k') == 'call' and n.get('q') in ('std::unique_ptr::get', 'std::shared_ptr::get') and n.get('recv') is not None:
+            nid = n['recv']
+        else:
+            return n['id']
+    return nid
